@@ -34,7 +34,9 @@ PROP = dict(
         "MM/Model/C08.lean: net.IPNet / net.IP modelled as (byte length, big-endian value, CIDRMask(ones,bits)); Contains / Mask / To4 / "
         "networkNumberAndMask modelled numerically (shift compare instead of byte-wise AND) - modelled, validated by T-diff, not verified",
         "net.IPNet.String() assumed one-to-one on (network number, mask) - the model uses that pair as the map key",
-        "sort.Slice modelled as the stable sort: exact for slices of <= 12 entries (insertion sort) and for pairwise distinct metrics",
+        "sort.Slice is not stable: the model keeps the stable order, both sides print every run of equal metric sorted by text and a lookup "
+        "answer is `anyof` over the first run of the slice, so slices of more than 12 entries with ties (where Go's pdqsort differs from the "
+        "stable order) are covered",
         "time: routes are aged through a verif accessor that shifts LastUpdate (harness/exports/internal__routing/c08.go); real time.Now() drift "
         "stays far below the half-hour rounding margin",
     ],
